@@ -603,7 +603,7 @@ func TestVerifWorker(t *testing.T) {
 		c15RefChild(t, p)
 		return
 	}
-	if os.Getenv("VERIF_JOB") == "" {
+	if os.Getenv("VERIF_JOB") == "" && os.Getenv("VERIF_C15_RACE") == "" {
 		t.Skip("VERIF_JOB not set")
 	}
 	// all inputs live in one scratch directory and are named relative to it,
@@ -618,6 +618,10 @@ func TestVerifWorker(t *testing.T) {
 	}
 	if err := os.Chdir(c15Dir); err != nil {
 		t.Fatal(err)
+	}
+	if p := os.Getenv("VERIF_C15_RACE"); p != "" {
+		c15RaceWorker(t, p)
+		return
 	}
 	sim.WorkerMain(t, c15Engine)
 }
